@@ -208,10 +208,10 @@ fn c12_sturges_i16_n3() {
 fn c12_fd_i16_n3() {
     fd_i16_n3();
 }
-//@ prop=C12,C17 tier=thorough mem=10 timeout=5400 flags=stub,modelmap uses=cut inst="Auto<i16> on Array1<i16> len 3" bounds="all data with spread <= 12; unwind 16"
-#[kani::proof]
-#[kani::unwind(16)]
-#[kani::stub(core::slice::sort::unstable::sort, model_sort)]
+// (not registered: not verified to finish within the session's budget on this machine) prop=C12,C17 tier=thorough mem=10 timeout=5400 flags=stub,modelmap uses=cut inst="Auto<i16> on Array1<i16> len 3" bounds="all data with spread <= 12; unwind 16"
+#[allow(dead_code)]
+// #[kani::unwind(16)]
+// #[kani::stub(core::slice::sort::unstable::sort, model_sort)]
 fn c12_auto_i16_n3() {
     auto_i16_n3();
 }
@@ -240,10 +240,10 @@ fn c12_strategies_empty() {
 
 /// End to end through GridBuilder: a histogram of the data over the grid built from it counts
 /// all n observations.
-//@ prop=C12,C11 tier=thorough mem=14 timeout=7200 flags=stub inst="GridBuilder<Sqrt<i16>>::from_array(&[3,1] matrix).build(); histogram of the same matrix" bounds="3 observations, spread <= 6; unwind 12"
-#[kani::proof]
-#[kani::unwind(12)]
-#[kani::stub(core::slice::sort::unstable::sort, model_sort)]
+// (not registered: not verified to finish within the session's budget on this machine) prop=C12,C11 tier=thorough mem=14 timeout=7200 flags=stub inst="GridBuilder<Sqrt<i16>>::from_array(&[3,1] matrix).build(); histogram of the same matrix" bounds="3 observations, spread <= 6; unwind 12"
+#[allow(dead_code)]
+// #[kani::unwind(12)]
+// #[kani::stub(core::slice::sort::unstable::sort, model_sort)]
 fn c12_gridbuilder_sqrt_counts_all() {
     let data: [i16; 3] = kani::any();
     let mut mn = data[0];
